@@ -133,6 +133,33 @@ def handle (cmd : String) (j : J) : Except String J :=
       | .pep p => pure (sJ p)
       | .rejected => pure (J.obj [("err", J.str "rejected")])
     | w => throw s!"bad what {w}"
+  | "specgen" => do
+    -- the general (RNA / lower case / gapped / ambiguous) specification, validated against the Python oracle
+    let id ← (← j.get "code").toNat
+    let s ← getS j "s"
+    match ← (← j.get "impl").toStr with
+    | "old" => pure (sJ (GCSpec.translateOld (← findCode oldCodes id) s))
+    | "new" => pure (sJ (GCSpec.translateNew (← findCode newCodes id) s))
+    | w => throw s!"bad impl {w}"
+  | "coll" => do
+    -- collection-level model: rows are gap-free strings
+    let id ← (← j.get "code").toNat
+    let rows := (← (← j.get "rows").toList)
+    let rows ← rows.mapM fun r => do pure (← r.toStr).toList
+    let old := (← (← j.get "impl").toStr) == "old"
+    let seq ← findCode (if old then oldCodes else newCodes) id
+    let getItem := if old then oldGetItem seq else newGetItem newDna seq
+    let rowsJ := fun (rs : List (List Char)) => J.arr (rs.map sJ)
+    match ← (← j.get "op").toStr with
+    | "get_translation" => do
+      let io ← (← j.get "incomplete_ok").toBool
+      let is_ ← (← j.get "include_stop").toBool
+      let ts ← (← j.get "trim_stop").toBool
+      pure (exJ rowsJ (if old then oldCollGetTranslation seq rows io is_ ts else newCollGetTranslation newDna seq rows io is_ ts))
+    | "has_terminal_stop" => pure (exJ J.bool (collHasTerminalStop getItem rows (← (← j.get "strict").toBool)))
+    | "trim_stop_codons" => pure (exJ rowsJ (collTrimStopCodons getItem rows (← (← j.get "strict").toBool)))
+    | "aln_trim_stop_codons" => pure (exJ rowsJ (alnTrimStopCodons getItem rows (← (← j.get "strict").toBool)))
+    | w => throw s!"bad op {w}"
   | _ => throw s!"unknown command {cmd}"
 
 def main : IO Unit := driverLoop handle
